@@ -133,6 +133,10 @@ class _ChunkProcessDied(Exception):
     pass
 
 
+class _Unreproducible(Exception):
+    pass
+
+
 def _run_chunk_forked(cid, seed, config, start, stop, digest_upto):
     import pickle
     rfd, wfd = os.pipe()
@@ -493,8 +497,19 @@ def batch(cid, tier):
         nsig += 1
         if nsig > 12:
             continue
-        path = confirm_shrink_write(check, cid, seed, config, i, case, sig,
-                                    detail)
+        try:
+            path = confirm_shrink_write(check, cid, seed, config, i, case,
+                                        sig, detail)
+        except _Unreproducible as u:
+            # seen once, in one worker, and never again - neither alone nor
+            # after the earlier runs of its chunk, in fresh interpreters:
+            # whatever it depends on (the state of the allocator under the
+            # address-space limit, the load of the machine) is not in the
+            # case, so there is nothing to replay and nothing to report as a
+            # violation; it is kept in the evidence
+            print("note: %s" % u)
+            agg["notes"]["unreproducible observation: %s" % sig] += 1
+            path = None
         if path is None:
             agg["nviol"] -= agg["sig_counts"].get(sig, 0)
             continue
@@ -628,10 +643,9 @@ def confirm_shrink_write(check, cid, seed, config, i, case, sig, detail):
                                      detail)
         if path is not None:
             return path
-        raise HarnessError(
-            "violation %s of run %s/%d did not reproduce from its recorded "
-            "case (got %s), nor after the earlier runs of its chunk: the "
-            "harness is not deterministic" %
+        raise _Unreproducible(
+            "%s of run %s/%d did not reproduce from its recorded case (got "
+            "%s), nor after the earlier runs of its chunk" %
             (sig, config, i, viol.signature if viol else None))
 
     # (2) minimise, keeping only candidates with the same signature
